@@ -79,8 +79,8 @@ def check(F, R, tier):
     ao = c.calls(r'DynamicStorage.*::acquire_ownership$')
     R.exact('acquire_ownership in cleanup_shared_memory', len(ao), 1)
     for a in ao:
-        conds = [sym_nstr(sym(c, c.blocks[b]['t'][1])) for (b, tgt) in lib.guard_switches(c, a)]
-        ok = any('remove_state' in x and 'MarkedForDestruction' in x and '==' in x for x in conds)
+        conds = lib.path_conds(c, a, F)
+        ok = any('remove_state' in x and 'MarkedForDestruction' in x and ' == ' in x for x in conds)
         R.ob('ONLY-UNDER', 'ONLY-UNDER::%s::acquire_ownership-under-MarkedForDestruction' % fnkey(c), ok, 'acquire_ownership guarded by %s; required remove_state(..) == State::MarkedForDestruction.value()' % conds, a.where, c)
     for r_ in rs:
         t = sym_nstr(sym(c, r_.args[1]))
@@ -159,8 +159,8 @@ def check(F, R, tier):
     ok = False
     detail = 'no use of State::MarkedForDestruction found inside the loop'
     for s in sites + promoted:
-        conds = [sym_nstr(sym(rsf, rsf.blocks[b]['t'][1])) for (b, tgt) in lib.guard_switches(rsf, s)]
-        if any('state_to_remove' in x and '==' in x for x in conds):
+        conds = lib.path_conds(rsf, s, F)
+        if any('state_to_remove' in x and ' == ' in x for x in conds):
             ok = True
             detail = 'MarkedForDestruction selected under %s' % [x for x in conds if 'state_to_remove' in x]
     R.ob('ONLY-UNDER', 'ONLY-UNDER::%s::MarkedForDestruction-iff-last-role' % fnkey(rsf), ok, detail + ' ; required current_state == state_to_remove.value()', rsf.file + ':%s' % rsf.line, rsf)
